@@ -17,8 +17,8 @@ Definition model_hist (ops : list op) : hobs :=
 
 Definition fired_stage (s : nat + nat) : stage :=
   match s with
-  | inl v => StDeferred (mkD true (Some (RVal v)) [])
-  | inr e => StDeferred (mkD true (Some (RErr e)) [])
+  | inl v => StDeferred (fired_with (RVal v))
+  | inr e => StDeferred (fired_with (RErr e))
   end.
 
 Definition model_sync (s : nat + nat) : sobs :=
